@@ -147,6 +147,9 @@ FIXED = [
     ("C06", "6cbef29", "derivative stored terms free of the variable with exponent 2**32-1 (storage key code point 58) under retain_coefficients=True"),
     ("C12", "f1457b8", "multiply returned uninitialised coefficients unless the product dtype was bool/uint32/int64/float64/complex128, and failed (UnicodeDecodeError / wrong key) for exponent sums >= 69 (also C20)"),
     ("C12", "786c41b", "align_shape promoted every broadcast operand to int64/float64, so + and - between small dtypes of different shapes returned the wrong dtype"),
+    ("C13", "f4ac822", "savetxt -> loadtxt failed for 0-d, single-element and single-term polynomials; loadtxt dropped the first row of a plain file given as file object"),
+    ("C13", "139eb2e", "pickling dropped retained all-zero terms (exponents of align_polynomials output changed across pickle)"),
+    ("C16", "82bae26", "str/repr of complex coefficients with negative real part lost the '+' between terms"),
     ("C03", "64ca5a4", "monomial over an empty index range in D > 1 dimensions returned an object whose storage key width (1) did not match its D names"),
 ]
 
